@@ -53,9 +53,10 @@ class Violation(object):
 
 
 class Outcome(object):
-    __slots__ = ("violations", "nontrivial", "classes", "key", "sample")
+    __slots__ = ("violations", "nontrivial", "classes", "key", "sample", "counts")
 
-    def __init__(self, violations=(), nontrivial=False, classes=(), key=None, sample=None):
+    def __init__(self, violations=(), nontrivial=False, classes=(), key=None, sample=None, counts=None):
+        self.counts = counts or {}
         self.violations = list(violations)
         self.nontrivial = nontrivial
         self.classes = list(classes)
@@ -128,6 +129,7 @@ class Collector(object):
         self.evaluations = 0
         self.nontrivial = set()
         self.classes = collections.Counter()
+        self.counts = collections.Counter()
         self.samples = []
         self.excluded_known = collections.Counter()
         self.failure = None           # (case, Violation)
@@ -137,6 +139,8 @@ class Collector(object):
         self.evaluations += 1
         for c in out.classes:
             self.classes[c] += 1
+        for c, n in out.counts.items():
+            self.counts[c] += n
         if out.nontrivial:
             k = out.key if out.key is not None else case_hash(case)
             if k not in self.nontrivial:
@@ -155,7 +159,7 @@ class Collector(object):
 
     def stats(self):
         return {"evaluations": self.evaluations, "nontrivial": sorted(self.nontrivial),
-                "classes": dict(self.classes), "samples": self.samples,
+                "classes": dict(self.classes), "counts": dict(self.counts), "samples": self.samples,
                 "excluded_known": dict(self.excluded_known),
                 "failure": None if self.failure is None else
                 {"case": _jsonable(self.failure[0]), "violation": self.failure[1].as_dict()}}
@@ -203,7 +207,7 @@ def _shard(args):
             st["report"] = mod.shard_report()
         return st
     except BaseException:
-        return {"error": traceback.format_exc(), "evaluations": 0, "nontrivial": [], "classes": {},
+        return {"error": traceback.format_exc(), "evaluations": 0, "nontrivial": [], "classes": {}, "counts": {},
                 "samples": [], "excluded_known": {}, "failure": None, "wall_s": time.time() - t0}
 
 
@@ -307,11 +311,13 @@ def main_check(prop, argv):
     evaluations = sum(r["evaluations"] for r in res) + reg["ran"]
     nontrivial = set()
     classes = collections.Counter()
+    counts = collections.Counter()
     excluded = collections.Counter()
     samples = []
     for r in res:
         nontrivial.update(r["nontrivial"])
         classes.update(r["classes"])
+        counts.update(r.get("counts", {}))
         excluded.update(r["excluded_known"])
         for s in r["samples"]:
             if len(samples) < 8:
@@ -346,6 +352,7 @@ def main_check(prop, argv):
             "rule": mod.RULE,
             "samples": samples,
             "classes": dict(sorted(classes.items())),
+            "counts": dict(sorted(counts.items())),
             "excluded_known": dict(excluded),
             "regression_replays": reg["ran"],
             "shards": shards, "examples_per_shard": examples,
